@@ -117,7 +117,7 @@ Proof.
   - destruct (reset_refused allow (m_needs_reset s)); inv E; reflexivity.
 Qed.
 
-Lemma file_rows_are_episodes_in_order allow ops :
+Lemma file_rows_are_episodes_in_order_partial allow ops :
   load_rows (fst (mon_run allow m0 ops)) = infos_of (snd (mon_run allow m0 ops)).
 Proof. unfold load_rows. rewrite mon_rows_inv. reflexivity. Qed.
 
@@ -207,4 +207,33 @@ Proof.
   - inv E. cbn [snd]. f_equal.
     assert (H : somes (map (fun _ : vacc => @None (Z * Z)) accs) = []) by (induction accs; cbn; auto).
     rewrite H. reflexivity.
+Qed.
+
+(* ---------- review item: the wrapper around a scripted environment IS mon_run on the operations it lets through ---------- *)
+Fixpoint mops_of (allow : bool) (sc : script) (c : cursor) (s : mstate) (ops : list uop) : list mop :=
+  match ops with
+  | [] => []
+  | UReset :: rest =>
+      if reset_refused allow (m_needs_reset s) then MReset :: mops_of allow sc c s rest
+      else let '(c1, _, _) := env_reset sc c in MReset :: mops_of allow sc c1 (fst (mon_op allow s MReset)) rest
+  | UStep :: rest =>
+      if step_refused (m_needs_reset s) then MStep 0 false false :: mops_of allow sc c s rest
+      else let '(c1, st) := env_step sc c in
+           let o := MStep (st_r4 st) (st_term st) (st_trunc st) in
+           o :: mops_of allow sc c1 (fst (mon_op allow s o)) rest
+  end.
+
+Lemma mon_env_run_is_mon_run allow sc : forall ops c s,
+  mon_env_run allow sc c s ops = mon_run allow s (mops_of allow sc c s ops).
+Proof.
+  induction ops as [|o ops IH]; intros c s; [reflexivity|].
+  destruct o; cbn [mon_env_run mops_of].
+  - destruct (step_refused (m_needs_reset s)) eqn:E.
+    + cbn [mon_run mon_op]. rewrite E. rewrite IH. reflexivity.
+    + destruct (env_step sc c) as [c1 st]. cbn [mon_run].
+      destruct (mon_op allow s (MStep (st_r4 st) (st_term st) (st_trunc st))) as [s1 out]. cbn [fst]. rewrite IH. reflexivity.
+  - destruct (reset_refused allow (m_needs_reset s)) eqn:E.
+    + cbn [mon_run mon_op]. rewrite E. rewrite IH. reflexivity.
+    + destruct (env_reset sc c) as [[c1 a] b]. cbn [mon_run].
+      destruct (mon_op allow s MReset) as [s1 out]. cbn [fst]. rewrite IH. reflexivity.
 Qed.
